@@ -35,6 +35,9 @@ UNITS = [
     # place, so any call that simplifies an operand's own unit object shows up in the snapshot), a scaled
     # dimensionless unit, and the second logarithmic unit
     ("m**2/cm", "length"), ("s*km/hr", "length"), ("km/m", "none"), ("g*cm**2/s**2/erg", "none"), ("Np", "log"),
+    # compound spellings of one dimension whose symbols do not cancel pairwise (erg / (N*m) is dimensionless
+    # with scale 1e-7: its own branch of __array_ufunc__)
+    ("N*m", "energy"), ("dyn*cm", "energy"), ("kg*m**2/s**2", "energy"), ("g*cm/s**2", "force"), ("N", "force"),
 ]
 GUARDED = ["degC", "degF", "dB", "Np", "delta_degC", "delta_degF"]
 BY_DIM = {}
@@ -358,6 +361,8 @@ def build_templates():
     TT["u_pow"] = T(lambda A, p: A["x"].units ** p["e"], ("x",), cat="unit", params=("e",))
     TT["u_eq"] = T(lambda A, p: A["x"].units == A["y"].units, ("x", "y"), cat="unit")
     TT["u_mul_arr"] = T(lambda A, p: A["x"].units * A["y"], ("x", "y"), cat="unit")
+    TT["op_mul_unit"] = T(lambda A, p: A["x"] * A["y"].units, ("x", "y"), cat="op")
+    TT["op_div_unit"] = T(lambda A, p: A["x"] / A["y"].units, ("x", "y"), cat="op")
     TT["u_rmul_scalar"] = T(lambda A, p: p["c"] * A["x"].units, ("x",), cat="unit", params=("c",))
     TT["u_conv"] = T(lambda A, p: A["x"].units.get_conversion_factor(A["y"].units), ("x", "y"), cat="unit")
     TT["u_simplify"] = T(lambda A, p: A["x"].units.simplify(), ("x",), cat="unit")
@@ -520,6 +525,8 @@ class Gen18:
         if name in ("np.fill_diagonal",):
             shape = (2, 2)
         dtype = r.choice(self.cfg["dtypes"])
+        if t.twin and t.cat in ("iconv", "iequiv") and r.random() < 0.3:
+            dtype = "float32"  # in place vs copy must agree to the bit also in the narrow float type
         # unit of the primary operand
         xunit = self.pick_unit()
         to_unit = None
@@ -861,7 +868,8 @@ class Sim18:
         if twin is not None and not raised and tgt_idx is not None:
             self.oracle_c(op, t, twin, copies, p, tgt_ent, before["ents"][tgt_idx])
         # ---------------- result of a copying call, then an in-place call on that result
-        if not raised and not self.violations and op["t"] in COPYING_RESULT:
+        if not raised and not self.violations and (op["t"] in COPYING_RESULT or t.cat in ("op", "ufunc", "ufunc_red", "cmp")
+                                                   or op["t"] in ("u_mul_arr", "u_rmul_scalar", "u_rdiv_scalar")):
             self.result_then_inplace(op, t, res, after)
         return out
 
